@@ -152,6 +152,38 @@ func treeSignature(ps string) (string, map[string]string) {
 			files["_finalstate(fork order)"] = strings.Join(lines, "\n")
 		}
 	}
+	// ... and for every node its edges and, per fork, its argument and return bindings
+	// in the order in which they are serialised (the user interface draws from them)
+	if b, err := os.ReadFile(filepath.Join(ps, "_finalstate")); err == nil {
+		var nodes []map[string]interface{}
+		if json.Unmarshal(b, &nodes) == nil {
+			var lines []string
+			for _, n := range nodes {
+				l := fmt.Sprint(n["fqname"]) + ": type=" + fmt.Sprint(n["type"]) + " state=" + fmt.Sprint(n["state"])
+				eb, _ := json.Marshal(n["edges"])
+				l += " edges=" + string(eb)
+				forks, _ := n["forks"].([]interface{})
+				for _, f := range forks {
+					fm, _ := f.(map[string]interface{})
+					bm, _ := fm["bindings"].(map[string]interface{})
+					for _, side := range []string{"Argument", "Return"} {
+						bs, _ := bm[side].([]interface{})
+						l += " " + side + "["
+						for _, x := range bs {
+							xm, _ := x.(map[string]interface{})
+							vb, _ := json.Marshal(xm["value"])
+							l += fmt.Sprintf("%v:%v:%v:%v=%s,", xm["id"], xm["type"], xm["mode"], xm["node"], uniqRe.ReplaceAllString(string(vb), ""))
+						}
+						l += "]"
+					}
+					ab, _ := json.Marshal(fm["argPermute"])
+					l += " permute=" + string(ab)
+				}
+				lines = append(lines, l)
+			}
+			files["_finalstate(edges and bindings)"] = strings.Join(lines, "\n")
+		}
+	}
 	sort.Strings(names)
 	// chunk directories appear twice (symlink + uniquified target): dedupe
 	var dd []string
@@ -172,10 +204,16 @@ func c10Case(c *Ctx) {
 		gcfg.Files, gcfg.Retain, gcfg.RetainDup = true, true, true
 	}
 	prog := Generate(c.Plan, gcfg)
-	forkTemplate := c.Plan.Draw(5) == 0
+	tsel := c.Plan.Draw(6)
+	forkTemplate := tsel == 0
 	if forkTemplate {
 		prog = templateForkOrderProg(c.Plan)
 		c.Res.Probes["fork-order-template"]++
+	}
+	if tsel == 1 {
+		// the same call id at several nesting levels, all of them feeding one stage
+		prog = templateSameIdProg(c.Plan)
+		c.Res.Probes["same-call-id-at-several-levels-template"]++
 	}
 	src := prog.Source()
 	c.Res.Shape = progShape(prog)
@@ -323,6 +361,60 @@ func diffLines(a, b string) string {
 		only = only[:12]
 	}
 	return strings.Join(only, " ")
+}
+
+// templateSameIdProg: pipelines nested two to four deep, each calling a stage under the
+// same call id (PREP) and handing its result down; the innermost consumer is bound to
+// its sibling PREP and, through pipeline inputs, to the PREPs of all enclosing levels:
+// its direct dependencies have equal ids and different fully qualified names.
+func templateSameIdProg(plan *Tape) *Prog {
+	p := &Prog{}
+	intT := Ty{Base: "int"}
+	ref := func(call string, path ...string) *Expr { return &Expr{Kind: ERef, Call: call, Path: path} }
+	self := func(path ...string) *Expr { return &Expr{Kind: ERef, Self: true, Path: path} }
+	depth := 2 + plan.Draw(3)
+	use := &StageDef{Name: "USE", SrcKind: "comp", Outs: []Field{{"y", intT}}}
+	for i := 0; i <= depth; i++ {
+		use.Ins = append(use.Ins, Field{fmt.Sprintf("a%d", i), intT})
+	}
+	p.Stages = []*StageDef{{Name: "PREP", SrcKind: "comp", Ins: []Field{{"n", intT}}, Outs: []Field{{"x", intT}}}, use}
+	// level 0 is the innermost pipeline; level k gets k inputs handed down from above
+	// plus the seed n
+	var prev *PipelineDef
+	for lvl := 0; lvl < depth; lvl++ {
+		pl := &PipelineDef{Name: fmt.Sprintf("LVL%d", lvl), Ins: []Field{{"n", intT}}, Outs: []Field{{"y", intT}}}
+		nUp := depth - 1 - lvl // values handed down from the enclosing levels
+		for i := 0; i < nUp; i++ {
+			pl.Ins = append(pl.Ins, Field{fmt.Sprintf("up%d", i), intT})
+		}
+		pl.Calls = []*CallDef{{Callee: "PREP", Id: "PREP", Binds: []Bind{{"n", self("n"), false}}}}
+		if lvl == 0 {
+			binds := []Bind{{"a0", ref("PREP", "x"), false}}
+			for i := 0; i < nUp; i++ {
+				binds = append(binds, Bind{fmt.Sprintf("a%d", i+1), self(fmt.Sprintf("up%d", i)), false})
+			}
+			binds = append(binds, Bind{fmt.Sprintf("a%d", nUp+1), self("n"), false})
+			// the order of the bindings in the source is drawn as well
+			for i := len(binds) - 1; i > 0; i-- {
+				k := plan.Draw(i + 1)
+				binds[i], binds[k] = binds[k], binds[i]
+			}
+			pl.Calls = append(pl.Calls, &CallDef{Callee: "USE", Id: "USE", Binds: binds})
+			pl.Ret = []Bind{{"y", ref("USE", "y"), false}}
+		} else {
+			binds := []Bind{{"n", self("n"), false}, {"up0", ref("PREP", "x"), false}}
+			for i := 0; i < nUp; i++ {
+				binds = append(binds, Bind{fmt.Sprintf("up%d", i+1), self(fmt.Sprintf("up%d", i)), false})
+			}
+			pl.Calls = append(pl.Calls, &CallDef{Callee: prev.Name, Id: prev.Name, Binds: binds})
+			pl.Ret = []Bind{{"y", ref(prev.Name, "y"), false}}
+		}
+		p.Pipelines = append(p.Pipelines, pl)
+		prev = pl
+	}
+	lit := func(v int) *Expr { return &Expr{Kind: ELit, Val: int64(v), T: intT} }
+	p.Top = &CallDef{Callee: prev.Name, Id: prev.Name, Binds: []Bind{{"n", lit(plan.Draw(10000)), false}}}
+	return p
 }
 
 // templateForkOrderProg builds programs whose map calls get their forks from
